@@ -873,8 +873,11 @@ class PathEval:
                             if old and old[0] == "ne":
                                 fact = ("ne", tuple(sorted(set(old[1]) | set(fact[1]), key=repr)))
                             st2["facts"][c] = fact
-                    ev = Event("cond", bb, term=c, fact=fact)
-                    self._walk(tb, st2, blocks, events + [ev], onpath, out, stop_at)
+                    if isinstance(c, tuple) and c[0] == "const":
+                        evs = events  # drop-flag / constant switches carry no information
+                    else:
+                        evs = events + [Event("cond", bb, term=c, fact=fact)]
+                    self._walk(tb, st2, blocks, evs, onpath, out, stop_at)
                 return
             # anything else: treat as end
             self._finish(out, blocks, events, ("other", bb), st)
